@@ -479,6 +479,40 @@ def client_daemon_consistency_case():
     return None
 
 
+def removal_during_dispatch_case():
+    """a callback removes another rule (or its own) while a signal is being routed: from that moment the removed rule's callback
+    is not invoked - not even for the signal in flight.  (What happens to the REMAINING rules of that dispatch is not asserted:
+    the unchanged router aborts the dispatch with RuntimeError when its rule table changes under it; callbacks re-entering the
+    router are outside what the contracts cover - see the assumptions.)"""
+    from txdbus import router
+    for victim in ('later', 'self', 'earlier'):
+        r = router.MessageRouter()
+        log = []
+        ids = {}
+
+        def remover(m):
+            log.append('remover')
+            target = {'later': 'b', 'self': 'a', 'earlier': 'z'}[victim]
+            if target in ids:
+                r.delMatch(ids.pop(target))
+                log.append('removed:' + target)
+        ids['z'] = r.addMatch(lambda m: log.append('z'), mtype='signal')
+        ids['a'] = r.addMatch(remover, mtype='signal')
+        ids['b'] = r.addMatch(lambda m: log.append('b'), mtype='signal')
+        for round_ in range(2):
+            try:
+                r.routeMessage(FakeMsg(MSGS[0]))
+            except RuntimeError:
+                pass
+            except Exception as e:
+                return 'a callback removing the %s rule during dispatch: routeMessage raised %s: %s' % (victim, type(e).__name__, e)
+        target = {'later': 'b', 'self': 'remover', 'earlier': 'z'}[victim]
+        cut = log.index('removed:' + {'later': 'b', 'self': 'a', 'earlier': 'z'}[victim])
+        if target in log[cut + 1:]:
+            return 'the %s rule was removed by a callback during dispatch, its callback was still invoked afterwards: %r' % (victim, log)
+    return None
+
+
 def daemon_rule_text_case():
     """the rule text the client writes, parsed by the daemon (Bus.dbus_AddMatch), selects exactly the signals the
     constraints describe - including argument indices of two digits (the specification allows arg0 .. arg63)"""
@@ -587,7 +621,7 @@ def bounded(tier, seed):
         f = interleaved_history_case(rnd)
         if f:
             return n, f, {'case': 'interleaved add/remove history'}
-    for case in (client_text_case, client_daemon_consistency_case, daemon_rule_text_case, proxy_signature_case):
+    for case in (client_text_case, client_daemon_consistency_case, daemon_rule_text_case, removal_during_dispatch_case, proxy_signature_case):
         n += 1
         f = case()
         if f:
